@@ -154,35 +154,43 @@ def judge(hname, run, computed, final):
                 out.append(('get_or_compute returned NO_VALUE', f'caller {w.name}'))
         elif who not in produced:
             out.append((f'{kind} returned a value no completed computation produced', f'caller {w.name} returned the value of {who}, completed: {sorted(produced)}'))
-    # mutual exclusion: between a caller's compute and the close of its write no other caller computes or writes
+    # mutual exclusion: between a caller's compute and its next lock release nobody else computes, writes or publishes
     inside = None
     for who, op, detail in trace:
         if op == 'compute':
             if inside is not None and inside != who:
-                out.append(('two callers inside compute+save at once', f'{who} computes while {inside} has not closed its write'))
+                out.append(('two callers inside compute+save at once', f'{who} computes while {inside} has not finished its compute+save'))
             inside = who
-        elif op in ('open_w', 'write1', 'write2'):
+        elif op in ('open_w', 'write1', 'write2', 'replace'):
             if inside is not None and inside != who:
-                out.append(('two callers inside compute+save at once', f'{who} writes while {inside} is between compute and close'))
-        elif op == 'close' and inside == who and any(o == 'open_w' and w2 == who for w2, o, d2 in trace[:trace.index((who, op, detail)) + 1]):
-            # the close that ends this caller's write
-            if _last_open_mode(trace, who, (who, op, detail)) == 'open_w':
-                inside = None
+                out.append(('two callers inside compute+save at once', f'{who} writes while {inside} is between compute and the end of its save'))
+        elif op in ('release', 'finish') and inside == who:
+            inside = None
     # quiescence: the entry is complete and is the value of the last writer in lock order
-    writers = [who for who, op, detail in trace if op == 'open_w']
+    writers = [who for who, op, detail in trace if op == 'compute']
     if writers:
         if final != writers[-1]:
             out.append(('entry at quiescence is not the last writer\'s complete value', f'file holds {final!r}, last writer in lock order {writers[-1]}'))
     elif h['old'] and final != 'old':
         out.append(('entry at quiescence damaged although nobody wrote', f'file holds {final!r}'))
-    # a call that starts after another call for the key has returned does not recompute unless forced
+    # "a call that starts after another call for the key has returned does not recompute unless forced" (and a `get`
+    # that starts then finds the value): an earlier call has returned if the harness pre-populated the entry or some
+    # get_or_compute caller finished before this caller's start
+    kinds = {n: k for n, k, a in h['callers']}
     for name, kind, after in h['callers']:
-        if after and kind == 'goc' and name in computed:
-            start = next(i for i, t in enumerate(trace) if t[0] == name and t[1] == 'start')
-            end = next(i for i, t in enumerate(trace) if t[0] == name and t[1] == 'finish')
-            overlapped = any(t[0] != name and t[1] in ('open_w', 'write1', 'write2', 'unlink') for t in trace[start:end]) or _write_open_at(trace, start, name)
-            if not overlapped:
-                out.append(('late caller recomputed although an entry existed and nobody was writing', f'{name} started after {after} returned, no write overlapped it, yet it called its computer'))
+        if kind == 'force':
+            continue
+        start = next((i for i, t in enumerate(trace) if t[0] == name and t[1] == 'start'), None)
+        if start is None:
+            continue
+        earlier = sorted(t[0] for t in trace[:start] if t[1] == 'finish' and kinds[t[0]] != 'get' and run.workers[[w.name for w in run.workers].index(t[0])].result[0] == 'ok')
+        if not (h['old'] or earlier):
+            continue
+        why = 'the entry was stored before anybody started' if h['old'] else f'{earlier} had returned'
+        if kind == 'goc' and name in computed:
+            out.append(('late caller recomputed although an earlier call had returned', f'{name} (not forced) started after {why}, yet it called its computer'))
+        if kind == 'get' and results.get(name) == NOV:
+            out.append(('get found nothing although an earlier call had returned', f'{name} started after {why}, yet get returned NO_VALUE'))
     return out
 
 
@@ -361,11 +369,12 @@ def run(tier, seed):
     for hname, bound, expect in plan:
         per[hname]['preemption_bound'] = bound
         per[hname]['distinct_outcomes'] = len({o for h, o in outs if h == hname})
-        if expect and per[hname]['reader_in_write_window'] == 0:
+        if expect and per[hname]['reader_in_write_window'] == 0 and not res.violations:  # (exploration of a harness stops early once it has 30 violations)
             res.harness_errors.append(f'{hname}: vacuous - no schedule put a reader into a write window')
     nfree, bad = free_running_smoke(8 if tier == 'quick' else 40)
     res.coverage['free_running_smoke_runs'] = nfree
-    for b in bad:
+    res.coverage['free_running_smoke_failures'] = len(bad)
+    for b in (bad if not res.violations else []):  # with violations found under control a failing free run is expected, not a harness problem
         res.harness_errors.append(f'free-running smoke test of the harness bodies failed although no controlled schedule did: {b}')
     res.coverage['states'] = sum(p['distinct_outcomes'] for p in per.values())
     res.coverage['distinct_nontrivial'] = res.coverage['states']
@@ -376,7 +385,7 @@ def run(tier, seed):
                             'entry, computations) outcomes')
     res.assumptions += ['thread legs: callers are threads with their own cache instances; process legs: callers are forked processes - same visible operations, same explorer',
                         'operations between two visible operations are atomic; the lock model is bound to the real FileLock by a timeout=0 acquisition at every grant',
-                        '`get` may answer NO_VALUE, and any reader may recompute, whenever a write overlaps it']
+                        'a call "starts after another call has returned" if the entry was stored before the harness started its callers or a get_or_compute caller finished before its first step']
     return res
 
 
